@@ -12,7 +12,7 @@ import sys
 import time
 
 ROOT = os.path.dirname(os.path.dirname(os.path.abspath(__file__)))
-CRATE = os.path.join(ROOT, "harness", "miri-seqlock")
+CRATE = os.path.join(os.environ.get("VERIF_HARNESS", os.path.join(ROOT, "harness")), "miri-seqlock")
 
 
 def parse_args(argv):
@@ -46,7 +46,7 @@ def main():
     out = a["out"]
     selftest = a.get("selftest", "0")
     t0 = time.time()
-    target = os.environ.get("CARGO_TARGET_DIR", os.path.join(ROOT, "harness", "target")) + "/miri"
+    target = os.environ.get("CARGO_TARGET_DIR", os.path.join(os.environ.get("VERIF_HARNESS", os.path.join(ROOT, "harness")), "target")) + "/miri"
     per = 32
     nproc = 8 if tier == "quick" else 128
     rates = [0.02, 0.05, 0.1, 0.2, 0.35, 0.5, 0.75, 0.9]
